@@ -12,6 +12,7 @@ import (
 	"os"
 	"os/exec"
 	"runtime"
+	"runtime/debug"
 	"strings"
 	"sync"
 	"time"
@@ -116,6 +117,17 @@ func runJob(dir string, j job) (a answer) {
 	// warm-up: lazily created runtime descriptors and goroutines
 	first := once()
 	once()
+	// A leaked *os.File would be closed by its finalizer at the next garbage
+	// collection, which hides the leak from the census: no collection while
+	// the repetitions run.  Before that, flush what earlier jobs left behind.
+	runtime.GC()
+	runtime.GC()
+	time.Sleep(20 * time.Millisecond)
+	oldGC := debug.SetGCPercent(-1)
+	defer func() {
+		debug.SetGCPercent(oldGC)
+		runtime.GC()
+	}()
 	g0, fd0 := settle(0, 0, 300*time.Millisecond)
 	g0, fd0 = settle(g0, fd0, 200*time.Millisecond)
 	a.Outcome = first
